@@ -2,7 +2,7 @@
 from ..rules import capacity, dispatch, process, search
 
 EXPLANATION = (
-    "Static analysis of capacity guards: the constructor path that allocates the stacks entails 1 <= stack_max_height <= 2^bits of the level pointer's dtype; before the indirect value-heuristic call solve_one's path facts entail top + P < len(stack) with P the largest net push of any registered value heuristic (derived: 2); the shaving probe is reached only under top + 1 < len(stack). uint16 cumulative constraint offsets are listed as undecided (NumPy raises on the inconsistent slice, not claimed). Also: no index array is produced by a wrapping conversion to an 8/16-bit type (astype, array-of-array) -- np.array(list, dtype=narrow) raises on overflow. Round 3: an assert is no refusal (stripped under python -O); the overflow is reported from solve_one itself (a check in the push primitive is behind a function pointer); one integer width for all arrays carrying shared-domain indices. Round 4: an error raised by the search is not replaced by a normal return (no exit inside finally, no swallowed search error); a value taken from a NumPy array is not narrowed by an unchecked conversion."
+    "Static analysis of capacity guards: the constructor path that allocates the stacks entails 1 <= stack_max_height <= 2^bits of the level pointer's dtype; before the indirect value-heuristic call solve_one's path facts entail top + P < len(stack) with P the largest net push of any registered value heuristic (derived: 2); the shaving probe is reached only under top + 1 < len(stack). uint16 cumulative constraint offsets are listed as undecided (NumPy raises on the inconsistent slice, not claimed). Also: no index array is produced by a wrapping conversion to an 8/16-bit type (astype, array-of-array) -- np.array(list, dtype=narrow) raises on overflow. Round 3: an assert is no refusal (stripped under python -O); the overflow is reported from solve_one itself (a check in the push primitive is behind a function pointer); one integer width for all arrays carrying shared-domain indices. Round 4: an error raised by the search is not replaced by a normal return (no exit inside finally, no swallowed search error); a value taken from a NumPy array is not narrowed by an unchecked conversion. Round 6: R-VALUE-WIDTH (an offset beyond a narrower copy's range is stored modulo 2**bits without an error)."
 )
 
 
